@@ -15,6 +15,13 @@ PROPS = {
                     "AsIndex accessors modelled as arbitrary state machines read once per component (Model/Index.lean); the call structure of get/get_mut is hand-modelled and tied by correspondence (call counts, returned addresses)"],
         "assumptions": ["Coh (shape product = element count) for the matrix indexed; established for every reachable matrix by C01"],
     },
+    "C10": {
+        "module": "Matreex.Props.C10", "harness": "C10",
+        "technique": "Lean 4 theorems (window lemma for the contiguous swap, loop invariant for the strided swap, lift to the logical view for both orders) + correspondence on all shapes/index pairs/element sizes",
+        "trusted": ["ptr::swap_nonoverlapping modelled with its precondition (ranges in the buffer, disjoint unless zero bytes); ptr::swap as UB outside the buffer (Model/Swap.lean, Model/Mem.lean)",
+                    "the call structure of swap/swap_rows/swap_cols is hand-modelled and tied by correspondence; for zero-sized elements with extents near usize::MAX only the outcome (Ok / IndexOutOfBounds / panic) is compared"],
+        "assumptions": ["Coh and size <= usize::MAX (C01); index arguments are usize values"],
+    },
     "C13": {
         "module": "Matreex.Props.C13", "harness": "C13",
         "trusted": ["isize::unsigned_abs = Int.natAbs, `x as usize` = two's complement (Prelude)"],
